@@ -5,6 +5,7 @@ import DDV.Gen.AddrSem
 import DDV.Gen.Lemmas.Claimed
 import DDV.Gen.Lemmas.Refs
 import DDV.Gen.Lemmas.LowerTree
+import DDV.Gen.Lemmas.LowerRefs
 import DDV.Props.C04
 
 namespace DDV.Props.C12
@@ -229,5 +230,35 @@ theorem claimed_entries_are_the_instances_of_the_definition (n : Names) (cfg : G
     refine ⟨c, hcm, ?_⟩
     rw [l.1]
     exact specChain_lift n cfg tch 0 (fun x hx => (DDV.Props.C04.treeChain_valid ht hrf x hx).1)
+
+/-- **… with ref objects counted at their own address.** The same for any object tree, register,
+    command and block refs included: every entry of the expanded list is the address of an
+    instance of the definition in which each ref stands for its target with the override applied
+    (`treeAddressR`: the ref's own offset / address and repeat where overridden), and every such
+    instance has an entry. -/
+theorem claimed_entries_are_the_instances_of_the_definition_refs (n : Names) (cfg : GlobalConfig)
+    (fuel fuel' : Nat) (deviceName : String) (os : List Object) (blocks : List LBlock) (cs : List Claimed)
+    (hl : collectIntoBlocks n cfg os fuel none deviceName true os = .ok blocks)
+    (hn : (blocks.map (·.name)).Nodup) :
+    ∃ root, blocks.head? = some root ∧
+      (claimedOfBlock n blocks fuel' root 0 [] = .ok cs →
+        (∀ c ∈ cs, ∃ tch, TreeChainR n os os tch ∧ c.address = treeAddressR n os tch 0) ∧
+        (∀ tch, TreeChainR n os os tch → ∃ c ∈ cs, c.address = treeAddressR n os tch 0)) := by
+  obtain ⟨root, rest, hb, _, _, hm, h1, h2, h3⟩ := instances_of_the_definition_refs n cfg fuel deviceName os blocks hl hn
+  refine ⟨root, by rw [hb]; rfl, ?_⟩
+  intro hc
+  have spec := instances_are_accessor_chains n blocks fuel' root cs hc
+  constructor
+  · intro c hcm
+    obtain ⟨ch, l1, l2⟩ := spec.1 c hcm
+    obtain ⟨tch, t1, t2⟩ := h2 ch l1
+    refine ⟨tch, t1, ?_⟩
+    rw [l2.1, t2]
+    exact h3 tch t1 0
+  · intro tch ht
+    obtain ⟨c, hcm, l⟩ := spec.2 _ (h1 tch ht)
+    refine ⟨c, hcm, ?_⟩
+    rw [l.1]
+    exact h3 tch ht 0
 
 end DDV.Props.C12
